@@ -42,6 +42,15 @@ func InitVisited(ctx context.Context) context.Context {
 	return ctx
 }
 
+// ResetVisited returns a context with a fresh, empty visited set. Skipping a
+// subject set because it was already visited is only sound between branches
+// that are combined by a union: an operand of an intersection or a negated
+// expression must not skip a subject set just because a sibling operand
+// reached it first, so each of them starts with its own set.
+func ResetVisited(ctx context.Context) context.Context {
+	return context.WithValue(ctx, visitedMapKey, newStringSet())
+}
+
 func CheckAndAddVisited(ctx context.Context, current relationtuple.Subject) (context.Context, bool) {
 	set, ok := ctx.Value(visitedMapKey).(*stringSet)
 	if !ok {
